@@ -779,12 +779,14 @@ where
             }
         };
 
-        let probability = unsafe {
-            // SAFETY: see above "SAFETY" comments on all paths that lead here.
-            right_sided_cumulative
-                .wrapping_sub(&left_sided_cumulative)
-                .into_nonzero_unchecked()
-        };
+        // The "SAFETY" comments above argue that `right_sided_cumulative != left_sided_cumulative`
+        // on all paths that lead here, but the argument relies on `self.inner` being a valid
+        // (nondecreasing, bounded by zero and one) CDF. Since `Distribution` is a safe trait, an
+        // invalid implementation must lead to a panic rather than to undefined behavior.
+        let probability = right_sided_cumulative
+            .wrapping_sub(&left_sided_cumulative)
+            .into_nonzero()
+            .expect("Invalid underlying continuous probability distribution.");
         (symbol, left_sided_cumulative, probability)
     }
 }
@@ -856,12 +858,11 @@ where
             non_leaky + slack(next_symbol, self.model.quantizer.min_symbol_inclusive)
         };
 
-        let probability = unsafe {
-            // SAFETY: probabilities of
-            right_sided_cumulative
-                .wrapping_sub(&self.left_sided_cumulative)
-                .into_nonzero_unchecked()
-        };
+        // This can only fail if `self.model.inner` is not a valid CDF (see `quantile_function`).
+        let probability = right_sided_cumulative
+            .wrapping_sub(&self.left_sided_cumulative)
+            .into_nonzero()
+            .expect("Invalid underlying continuous probability distribution.");
 
         let left_sided_cumulative = self.left_sided_cumulative;
         self.left_sided_cumulative = right_sided_cumulative;
